@@ -22,6 +22,7 @@ type RoundOpts struct {
 	MaxWaits     int
 	MaxDeliver   int
 	Simulate     int // > 0: TLC random simulation with that many behaviours instead of exhaustive enumeration
+	Reps         int // > 1: every schedule is executed that many times (each with its own perturbation policy)
 	Job          JobOpts
 	Invariants   []string
 	ExtraCfg     string
@@ -73,6 +74,12 @@ func (c *Ctx) TokenGameRound(fs []Finding, ps []*prog.Program, o RoundOpts) erro
 	}
 	if len(scheds) == 0 {
 		return fmt.Errorf("%s: TLC exported no schedule", o.Label)
+	}
+	if o.Reps > 1 {
+		base := scheds
+		for k := 1; k < o.Reps; k++ {
+			scheds = append(scheds, base...)
+		}
 	}
 	tagCount := map[string]int{}
 	for _, p := range ps {
@@ -196,6 +203,7 @@ func (c *Ctx) TokenGameRound(fs []Finding, ps []*prog.Program, o RoundOpts) erro
 		cj.Opts.StuckMs = max(job.Opts.StuckMs, 250) * 4
 		for _, r := range confirm {
 			cj.Schedules = append(cj.Schedules, scheds[r])
+			cj.PolicyRun = append(cj.PolicyRun, r)
 		}
 		w := c.Workers / 4
 		if w < 1 {
